@@ -355,8 +355,8 @@ def check_case(spec, res):
         boot._verif.install(permuter=None)
     # how many programs are sensitive to the tie order at all (evidence; F16's reach)
     if spec["flavour"] in ("ties", "dep") and len(methods) <= 6:
-        c0 = spec["calls"][:: max(1, len(spec["calls"]) // 16)]
-        if any(len(_frozen_possible(spec, env, c) or ()) > 1 for c in c0):
+        c0 = spec["calls"][:: max(1, len(spec["calls"]) // 6)]
+        if any(len(_frozen_possible(spec, env, c, limit=12) or ()) > 1 for c in c0):
             res.count("tie_order_sensitive_programs")
     if multi and nconf >= 8:
         res.nontrivial([spec["flavour"], [[T.tname(p["t"]) for p in m["pos"]] + [m["prio"]] for m in methods]])
@@ -404,13 +404,13 @@ def teardown(res):
                 break
 
 
-def _frozen_possible(spec, env, call):
+def _frozen_possible(spec, env, call, limit=None):
     mids = [m["mid"] for m in spec["methods"]]
     if len(mids) > 6:
         return None
     out = set()
     try:
-        for perm in itertools.permutations(mids):
+        for perm in itertools.islice(itertools.permutations(mids), limit):
             rank = {m: i for i, m in enumerate(perm)}
             frozen.CAND_KEY = lambda mid: rank[mid]
             r = frozen.outcome(spec["methods"], call, env)
